@@ -63,6 +63,7 @@ type gatt struct {
 type graph struct {
 	nodes []gnode
 	atts  []gatt
+	done  []int // composite nodes (not user types) whose construction is finished: may be shared
 }
 
 var prims = []string{"boolean", "int", "int32", "int64", "uint", "uint32", "uint64", "float32", "float64", "string", "bytes", "any"}
@@ -81,6 +82,18 @@ func randType(r *lp.Rng, g *graph, depth int, uts *[]int) int {
 		}
 		return g.addNode(gnode{kind: "p", prim: lp.Pick(r, prims)})
 	}
+	if len(g.done) > 0 && r.Intn(7) == 0 {
+		// the same array / map / union / object value reached through a second path (sharing is not structure)
+		return g.done[r.Intn(len(g.done))]
+	}
+	id := randComposite(r, g, depth, uts)
+	if g.nodes[id].kind != "t" {
+		g.done = append(g.done, id)
+	}
+	return id
+}
+
+func randComposite(r *lp.Rng, g *graph, depth int, uts *[]int) int {
 	switch r.Intn(6) {
 	case 0:
 		return g.addNode(gnode{kind: "a", atts: []int{randAtt(r, g, depth-1, uts)}})
@@ -792,6 +805,26 @@ func run(toks []string) string {
 		// the documented meaning of the flags: names of user types count unless ignoreNames (and
 		// always with ignoreFields); struct:field tags count unless ignoreTags
 		res = append(res, "names="+checkNames(g, root), "tags="+checkTags(g, root))
+		// sharing is not structure: the same graph with every shared array / map / union / object value
+		// unfolded into separate copies is structurally equal (decided for graphs without cycles, where
+		// the hash of a node does not depend on the path it is reached by)
+		shared, cyclic := shape(g, root)
+		if shared {
+			ug, uroot := unshare(g, root)
+			b1, b2 := build(g), build(ug)
+			st := "ok"
+			if allHashes(b1.nodes[root]) != allHashes(b2.nodes[uroot]) {
+				st = "differs"
+			} else if !expr.Equal(b1.nodes[root], b2.nodes[uroot]) {
+				st = "not-equal"
+			}
+			if cyclic {
+				st = "cyclic-" + st
+			}
+			res = append(res, "share="+st)
+		} else {
+			res = append(res, "share=none")
+		}
 		// copies
 		for _, mode := range []string{"dup", "dupatt"} {
 			b := build(g)
@@ -805,11 +838,19 @@ func run(toks []string) string {
 			st := "ok"
 			if allHashes(orig) != allHashes(cp) || !expr.Equal(orig, cp) {
 				st = "hash-differs"
+				if shared {
+					// a copy holds separate copies of shared values: when it hashes exactly like the unfolded
+					// graph, the difference is that of `share` above and not one of the copy
+					ug, uroot := unshare(g, root)
+					if allHashes(build(ug).nodes[uroot]) == allHashes(cp) {
+						st = "hash-differs-as-unshared"
+					}
+				}
 			}
 			var d1, d2 strings.Builder
 			dump(orig, map[string]bool{}, &d1)
 			dump(cp, map[string]bool{}, &d2)
-			if st == "ok" && d1.String() != d2.String() {
+			if d1.String() != d2.String() {
 				st = "not-structurally-equal"
 			}
 			res = append(res, mode+"="+st)
@@ -858,6 +899,70 @@ func reachable(g *graph, root int) (map[int]bool, map[int]bool) {
 	}
 	visit(root)
 	return ns, as
+}
+
+// shape reports whether a composite non-user node is reached by two paths from root, and whether the
+// graph reachable from root has a cycle.
+func shape(g *graph, root int) (shared, cyclic bool) {
+	state := map[int]int{} // 1 = on the stack, 2 = finished
+	var visit func(n int)
+	visit = func(n int) {
+		switch state[n] {
+		case 1:
+			cyclic = true
+			return
+		case 2:
+			if k := g.nodes[n].kind; k != "p" && k != "t" {
+				shared = true
+			}
+			return
+		}
+		state[n] = 1
+		for _, a := range g.nodes[n].atts {
+			visit(g.atts[a].node)
+		}
+		state[n] = 2
+	}
+	visit(root)
+	return
+}
+
+// unshare copies the graph reachable from root so that every array, map, union and object node is
+// reached by exactly one path (user types stay single nodes; every cycle passes through one).
+func unshare(g *graph, root int) (*graph, int) {
+	u := &graph{}
+	uts := map[int]int{}
+	var copyNode func(n int) int
+	copyNode = func(n int) int {
+		src := g.nodes[n]
+		if src.kind == "t" {
+			if id, ok := uts[n]; ok {
+				return id
+			}
+		}
+		c := src
+		c.atts = nil
+		c.names = append([]string{}, src.names...)
+		id := u.addNode(c)
+		if src.kind == "t" {
+			uts[n] = id
+		}
+		var atts []int
+		for _, a := range src.atts {
+			ga := g.atts[a]
+			na := u.addAtt(gatt{})
+			t := copyNode(ga.node)
+			m := [][]string{}
+			for _, e := range ga.meta {
+				m = append(m, append([]string{}, e...))
+			}
+			u.atts[na] = gatt{node: t, meta: m, val: ga.val}
+			atts = append(atts, na)
+		}
+		u.nodes[id].atts = atts
+		return id
+	}
+	return u, copyNode(root)
 }
 
 func cloneGraph(g *graph) *graph {
